@@ -78,7 +78,7 @@ func directTrace(c Case) []string {
 	var ri *regInterp
 	for i, l := range c.Lines {
 		if cfg, ok := parseWireInit(l); ok {
-			ri = newRegInterp(ocimem.NewWithConfig(&ocimem.Config{ImmutableTags: cfg.immutable}))
+			ri = newRegInterp(newMem(cfg.immutable))
 			out[i] = "ok"
 			continue
 		}
@@ -106,7 +106,7 @@ func stackTrace(c Case) []string {
 				closer()
 			}
 			var top ociregistry.Interface
-			top, closer = cfg.buildStack(ocimem.NewWithConfig(&ocimem.Config{ImmutableTags: cfg.immutable}))
+			top, closer = cfg.buildStack(newMem(cfg.immutable))
 			ri = newRegInterp(top)
 			out[i] = "ok"
 			continue
